@@ -8,8 +8,9 @@
 * `Store`, `createRef`, `prepend` = `CommentStore::create_comment_reference`
   (`crates/samlang-ast/src/source.rs:69-78`) and
   `utils::mod_associated_comments_with_additional_preceding_comments`
-  (`source_parser.rs:2181-2197`), including its `NoComment` arm, which creates a fresh entry but
-  returns the *old* reference.
+  (`source_parser.rs:2181-2196`). Until /repo commit 5884ffb (`fix:` for finding C09-F1) its
+  `NoComment` arm created a fresh entry but returned the *old* reference; the model follows the
+  fixed code.
 
 The token stream (what `TokenProducer::next_token` yields, comment texts already post-processed by
 the lexer) is an input of the model. Core Lean only, executable.
@@ -106,7 +107,7 @@ def get (st : Store) (r : Nat) : Option (List Comment) := st[r]?
 def prepend (st : Store) (r : Nat) (extra : List Comment) : Option (Store × Nat) :=
   match st[r]? with
   | none => none
-  | some [] => some ((createRef st extra).1, r)   -- new entry created, old reference returned
+  | some [] => some (createRef st extra)   -- new entry, new reference (since fix 5884ffb)
   | some (e :: es) => some (st.set r (extra ++ e :: es), r)
 
 end SamVerif.CommentQueue
